@@ -5,7 +5,12 @@ ROOT = os.path.dirname(os.path.dirname(os.path.abspath(__file__)))
 props = [json.loads(l) for l in open(os.path.join(ROOT, 'properties.jsonl'))]
 baseline = json.load(open('/root/.vp/BASELINE.json'))['cmd'] if os.path.exists('/root/.vp/BASELINE.json') else 'cd /repo && go test -mod=mod -vet=off -count=1 ./...'
 
-TECH = "bounded symbolic execution of the real go/ssa code into SMT-LIB2 (z3), counterexamples replayed natively"
+TECH = ("solver-based checking of the real code: the repository's functions are executed symbolically from go/ssa (own executor), every branch, implicit panic condition and "
+        "harness assertion over the symbolic inputs is an SMT-LIB2 query decided by z3 4.8.12 (cvc5 1.0 / z3 5.1 as fall-back and for sampled re-checks) for ALL values within the stated bounds; "
+        "counterexamples (solver model + schedule) are replayed natively against the compiled code before they are reported")
+TECH_THREADS = (" For the concurrency part the interleavings at synchronisation points are additional decision variables of the same bounded exploration (preemption-bounded, "
+                "every schedule within the bound is executed symbolically; a happens-before race monitor, deadlock and held-lock monitors run on each); the solver decides the data-dependent branches on every schedule.")
+THREADED = {"C02", "C03", "C04", "C06", "C07", "C12", "C14", "C16", "C17", "C18", "C19", "C01"}
 TRUST = ("go/packages+go/ssa (x/tools v0.29.0) give the program; the SSA executor in /verif/engine implements Go semantics for the instructions it runs; "
          "z3 4.8.12 is sound (every counterexample is re-run natively with go test -overlay before it is reported); stubs behave as their documented contracts "
          "(listed per run in evidence coverage.stubs_used); nothing is claimed outside the per-harness bounds written in the evidence file.")
@@ -29,7 +34,7 @@ for p in props:
             "engine": "sv",
             "level_claimed": {"category": "other", "text": text, "design_ref": ref},
             "level_note": note + " Trusted base: " + TRUST,
-            "technique": TECH,
+            "technique": TECH + (TECH_THREADS if pid in THREADED else ""),
         })
     else:
         na.append({"property_id": pid, "reason": not_applicable.get(pid, "check not built yet (engine under construction); see DESIGN.md section 5")})
